@@ -126,6 +126,8 @@ class Texts:
 
     def note(self, tag='n', multiline_p=0.3):
         """a note text in normal form"""
+        if self.coin and self.rng.random() < 0.015:
+            return ''            # an explicitly written empty note (falsy, like no note at all)
         if self.rng.random() >= multiline_p:
             return self.line(tag)
         k = self.rng.randint(2, 4)
